@@ -1,3 +1,4 @@
+From CG Require Import Model.RecSrc.
 (* GENERATED on every run by harness/translate/pysrc.py from the Python sources of the tree
    under test — do not edit.  Each definition is the translation of one function's source text;
    Proofs/GenEq*.v prove it equal to the hand-written model for all inputs. *)
@@ -1081,3 +1082,256 @@ Definition g_period_windows_dt {DT : Type} {TD : Type} (fuel : nat) (p_fromtimes
     | Metrics.PFull =>
       (RDone [(start_dt, start_ts, end_ts)])
     end.
+
+(* calgebra/recurrence.py: RecurringPattern.fetch *)
+Definition g_recur_fetch {R : Type} (fetch_reverse : option Z -> option Z -> R) (fetch_forward : option Z -> option Z -> R) (start : option Z) (end_ : option Z) (reverse : bool) : R :=
+  if reverse then
+    (fetch_reverse start end_)
+  else
+    (fetch_forward start end_).
+
+(* calgebra/recurrence.py: rrule_kwargs_to_rrule_string *)
+Definition g_rrule_text (rrule_kwargs : kwargs) : res text :=
+  let parts := (@nil text) in
+  let freq := (kw_freq rrule_kwargs) in
+  match freq with
+  | Some freq =>
+    if false then
+      (RRaise ValueError)
+    else
+      let parts := (parts ++ [(tok_cat [TKey KFreq] (tok_freq freq))]) in
+      let interval_ := (match (kw_interval rrule_kwargs) with Some v_ => v_ | None => 1 end) in
+      let parts :=
+        if (negb (interval_ =? 1)) then
+          let parts := (parts ++ [(tok_cat [TKey KInterval] (tok_int interval_))]) in
+          parts
+        else
+          parts in
+      let byweekday := (kw_byweekday rrule_kwargs) in
+      match byweekday with
+      | Some byweekday =>
+        let day_strings := (@nil text) in
+        iter_for
+          (fun day_strings wd =>
+            let weekday_str := (wd_text (fst wd)) in
+            match weekday_str with
+            | Some weekday_str =>
+              if ((negb (is_none (snd wd))) && (negb ((ozd (snd wd)) =? 0))) then
+                let day_strings := (day_strings ++ [(tok_cat (tok_int (ozd (snd wd))) weekday_str)]) in
+                (SCont day_strings)
+              else
+                let day_strings := (day_strings ++ [weekday_str]) in
+                (SCont day_strings)
+            | None =>
+              (SRet (RRaise ValueError))
+            end)
+          (fun day_strings =>
+            let parts :=
+              if (nonempty day_strings) then
+                let parts := (parts ++ [(tok_cat [TKey KByDay] (tok_join [TComma] day_strings))]) in
+                parts
+              else
+                parts in
+            let val := (kw_bymonth rrule_kwargs) in
+            let parts :=
+              match val with
+              | Some val =>
+                let parts := (parts ++ [(tok_cat [TKey KByMonth] (tok_join [TComma] (map tok_int val)))]) in
+                parts
+              | None =>
+                parts
+              end in
+            let val := (kw_bymonthday rrule_kwargs) in
+            let parts :=
+              match val with
+              | Some val =>
+                let parts := (parts ++ [(tok_cat [TKey KByMonthDay] (tok_join [TComma] (map tok_int val)))]) in
+                parts
+              | None =>
+                parts
+              end in
+            let val := (kw_byweekno rrule_kwargs) in
+            let parts :=
+              match val with
+              | Some val =>
+                let parts := (parts ++ [(tok_cat [TKey KByWeekNo] (tok_join [TComma] (map tok_int val)))]) in
+                parts
+              | None =>
+                parts
+              end in
+            let val := (kw_byyearday rrule_kwargs) in
+            let parts :=
+              match val with
+              | Some val =>
+                let parts := (parts ++ [(tok_cat [TKey KByYearDay] (tok_join [TComma] (map tok_int val)))]) in
+                parts
+              | None =>
+                parts
+              end in
+            let val := (kw_bysetpos rrule_kwargs) in
+            let parts :=
+              match val with
+              | Some val =>
+                let parts := (parts ++ [(tok_cat [TKey KBySetPos] (tok_join [TComma] (map tok_int val)))]) in
+                parts
+              | None =>
+                parts
+              end in
+            let val := (kw_byhour rrule_kwargs) in
+            let parts :=
+              match val with
+              | Some val =>
+                let parts := (parts ++ [(tok_cat [TKey KByHour] (tok_join [TComma] (map tok_int val)))]) in
+                parts
+              | None =>
+                parts
+              end in
+            let val := (kw_byminute rrule_kwargs) in
+            let parts :=
+              match val with
+              | Some val =>
+                let parts := (parts ++ [(tok_cat [TKey KByMinute] (tok_join [TComma] (map tok_int val)))]) in
+                parts
+              | None =>
+                parts
+              end in
+            let val := (kw_bysecond rrule_kwargs) in
+            let parts :=
+              match val with
+              | Some val =>
+                let parts := (parts ++ [(tok_cat [TKey KBySecond] (tok_join [TComma] (map tok_int val)))]) in
+                parts
+              | None =>
+                parts
+              end in
+            let wkst := (kw_wkst rrule_kwargs) in
+            let parts :=
+              match wkst with
+              | Some wkst =>
+                match wkst with
+                | WkObj wkst_w =>
+                  let s := (wd_text wkst_w) in
+                  if (otext_true s) then
+                    let parts := (parts ++ [(tok_cat [TKey KWkst] (match s with Some v_ => v_ | None => (@nil token) end))]) in
+                    parts
+                  else
+                    parts
+                | WkInt wkst_z =>
+                  if ((0 <=? wkst_z) && (wkst_z <? 7)) then
+                    let parts := (parts ++ [(tok_cat [TKey KWkst] (tok_wd wkst_z))]) in
+                    parts
+                  else
+                    parts
+                end
+              | None =>
+                parts
+              end in
+            (RDone (tok_join [TSemi] parts)))
+          day_strings byweekday
+      | None =>
+        let val := (kw_bymonth rrule_kwargs) in
+        let parts :=
+          match val with
+          | Some val =>
+            let parts := (parts ++ [(tok_cat [TKey KByMonth] (tok_join [TComma] (map tok_int val)))]) in
+            parts
+          | None =>
+            parts
+          end in
+        let val := (kw_bymonthday rrule_kwargs) in
+        let parts :=
+          match val with
+          | Some val =>
+            let parts := (parts ++ [(tok_cat [TKey KByMonthDay] (tok_join [TComma] (map tok_int val)))]) in
+            parts
+          | None =>
+            parts
+          end in
+        let val := (kw_byweekno rrule_kwargs) in
+        let parts :=
+          match val with
+          | Some val =>
+            let parts := (parts ++ [(tok_cat [TKey KByWeekNo] (tok_join [TComma] (map tok_int val)))]) in
+            parts
+          | None =>
+            parts
+          end in
+        let val := (kw_byyearday rrule_kwargs) in
+        let parts :=
+          match val with
+          | Some val =>
+            let parts := (parts ++ [(tok_cat [TKey KByYearDay] (tok_join [TComma] (map tok_int val)))]) in
+            parts
+          | None =>
+            parts
+          end in
+        let val := (kw_bysetpos rrule_kwargs) in
+        let parts :=
+          match val with
+          | Some val =>
+            let parts := (parts ++ [(tok_cat [TKey KBySetPos] (tok_join [TComma] (map tok_int val)))]) in
+            parts
+          | None =>
+            parts
+          end in
+        let val := (kw_byhour rrule_kwargs) in
+        let parts :=
+          match val with
+          | Some val =>
+            let parts := (parts ++ [(tok_cat [TKey KByHour] (tok_join [TComma] (map tok_int val)))]) in
+            parts
+          | None =>
+            parts
+          end in
+        let val := (kw_byminute rrule_kwargs) in
+        let parts :=
+          match val with
+          | Some val =>
+            let parts := (parts ++ [(tok_cat [TKey KByMinute] (tok_join [TComma] (map tok_int val)))]) in
+            parts
+          | None =>
+            parts
+          end in
+        let val := (kw_bysecond rrule_kwargs) in
+        let parts :=
+          match val with
+          | Some val =>
+            let parts := (parts ++ [(tok_cat [TKey KBySecond] (tok_join [TComma] (map tok_int val)))]) in
+            parts
+          | None =>
+            parts
+          end in
+        let wkst := (kw_wkst rrule_kwargs) in
+        match wkst with
+        | Some wkst =>
+          match wkst with
+          | WkObj wkst_w =>
+            let s := (wd_text wkst_w) in
+            let parts :=
+              if (otext_true s) then
+                let parts := (parts ++ [(tok_cat [TKey KWkst] (match s with Some v_ => v_ | None => (@nil token) end))]) in
+                parts
+              else
+                parts in
+            (RDone (tok_join [TSemi] parts))
+          | WkInt wkst_z =>
+            let parts :=
+              if ((0 <=? wkst_z) && (wkst_z <? 7)) then
+                let parts := (parts ++ [(tok_cat [TKey KWkst] (tok_wd wkst_z))]) in
+                parts
+              else
+                parts in
+            (RDone (tok_join [TSemi] parts))
+          end
+        | None =>
+          (RDone (tok_join [TSemi] parts))
+        end
+      end
+  | None =>
+    (RRaise ValueError)
+  end.
+
+(* calgebra/recurrence.py: RecurringPattern.to_rrule_string *)
+Definition g_to_rrule_string (self_rrule_kwargs : kwargs) : res text :=
+  res_bind (g_rrule_text self_rrule_kwargs) (fun r1_ =>
+  (RDone r1_)).
